@@ -301,9 +301,53 @@ func hintsCase(c *Case, lean *LeanDriver) Verdict {
 	}
 	v.NonTriv = nonTrivial(ref)
 	tie := false
-	if ans, q, err := leanInfo(c, lean, "ties"); err == nil {
+	modelHints := ""
+	haveModel := false
+	if ans, q, err := leanInfo(c, lean, "ties", "hints"); err == nil {
 		v.Features = features(q)
 		tie = ans["ties"] == "1"
+		modelHints, haveModel = ans["hints"]
+	}
+	// the Lean model of newOperator's hint propagation against what the real engine handed to the
+	// storage: function, by/without and grouping labels, as sets (identical selectors share a select)
+	if haveModel && modelHints != "bad-op" && ref.Kind != "err" {
+		fg := func(fn string, by bool, grouping []string) string {
+			g := append([]string(nil), grouping...)
+			sort.Strings(g)
+			b := "0"
+			if by {
+				b = "1"
+			}
+			return fn + "|" + b + "|" + strings.Join(g, ",")
+		}
+		em := map[string]bool{}
+		for _, r := range st.Selects {
+			em[fg(r.Hints.Func, r.Hints.By, r.Hints.Grouping)] = true
+		}
+		mm := map[string]bool{}
+		if modelHints != "" {
+			for _, h := range strings.Split(modelHints, ";") {
+				p := strings.SplitN(h, "|", 3)
+				if len(p) == 3 {
+					var g []string
+					if p[2] != "" {
+						g = strings.Split(p[2], ",")
+					}
+					mm[fg(p[0], p[1] == "1", g)] = true
+				}
+			}
+		}
+		keys := func(m map[string]bool) []string {
+			var out []string
+			for k := range m {
+				out = append(out, k)
+			}
+			sort.Strings(out)
+			return out
+		}
+		if e, m := strings.Join(keys(em), " ; "), strings.Join(keys(mm), " ; "); e != m {
+			v.EngVsModel = fmt.Sprintf("function/grouping hints: engine {%s} vs model {%s}", e, m)
+		}
 	}
 	pst := NewMemStorage(c.Data())
 	ctx, cancel := bg()
